@@ -189,7 +189,7 @@ CHAIN_SHAPES = [
 @st.composite
 def chain_cases(draw):
     """A hostile string fed directly into a chain of 1-4 filters, observed through several output sites."""
-    r = draw(st.randoms(use_true_random=False))
+    r = core.rng(draw)
     prof = _profile(False)
     prof.names = ["h1", "h2", "h3"]
     prof.max_path_segments = 0
@@ -208,7 +208,7 @@ def chain_cases(draw):
 
 @st.composite
 def cases(draw):
-    r = draw(st.randoms(use_true_random=False))
+    r = core.rng(draw)
     ternary = r.random() < 0.4
     main = gg.Gen(r, _profile(ternary)).template()
     hostile = r.random() < 0.65
